@@ -48,10 +48,10 @@ func emptyAlt() SAlt         { return SAlt{Empty: true} }
 func errAlt(syms ...Sym) SAlt { return SAlt{Err: true, Body: syms} }
 
 // Families is the list of template families GenSyntax knows.
-var Families = []string{"expr", "list", "stmts", "brackets", "random", "lr1notlalr", "nullable", "long", "random", "random", "nulllist", "nulllist", "nulltails"}
+var Families = []string{"expr", "list", "stmts", "brackets", "random", "lr1notlalr", "nullable", "long", "random", "random", "nulllist", "nulllist", "nulltails", "lr2", "wide", "firstchain"}
 
 // BoundaryFamilies are shapes near the LR(1) boundary (used on top of Families by C04).
-var BoundaryFamilies = []string{"lr1notlalr", "cyclic", "rr1la", "nullconflict", "nullable", "random", "expr", "nulltails", "nulllist"}
+var BoundaryFamilies = []string{"lr1notlalr", "cyclic", "rr1la", "nullconflict", "nullable", "random", "expr", "nulltails", "nulllist", "lr2"}
 
 // GenSyntax builds a random syntax part (no actions, no lexical part).
 func GenSyntax(r *rand.Rand, o SynGenOpts) *Grammar {
@@ -80,6 +80,12 @@ func GenSyntax(r *rand.Rand, o SynGenOpts) *Grammar {
 		g = s.nullList()
 	case "nulltails":
 		g = s.nullTails()
+	case "lr2":
+		g = s.lr2()
+	case "firstchain":
+		g = s.firstChain()
+	case "wide":
+		g = s.wide()
 	case "cyclic":
 		g = s.cyclic()
 	case "rr1la":
@@ -296,6 +302,76 @@ func (s *synGen) nullList() *Grammar {
 	return g
 }
 
+// firstChain: nonterminals whose FIRST sets depend on nonterminals declared LATER, several
+// levels deep and with overlapping terminals, so that the FIRST fixed point needs many passes
+// and a pass may add only some new terminals to a set that already holds others; the sets feed
+// look-aheads through a nonterminal that precedes the chain in some body.
+func (s *synGen) firstChain() *Grammar {
+	s.pickTerminals(6)
+	t := s.terms
+	depth := 2 + s.r.Intn(3)
+	name := func(i int) string { return fmt.Sprintf("N%d", i) }
+	g := &Grammar{}
+	top := &NTDef{Head: "Top", Alts: []SAlt{alt(nt("Z"), nt("W")), alt(t[5], nt("Top"))}}
+	w := &NTDef{Head: "W", Alts: []SAlt{alt(nt(name(0)), t[4])}}
+	z := &NTDef{Head: "Z", Alts: []SAlt{alt(t[3])}}
+	g.NTs = []*NTDef{top, w, z}
+	for i := 0; i < depth; i++ {
+		d := &NTDef{Head: name(i)}
+		if i+1 < depth {
+			d.Alts = append(d.Alts, alt(nt(name(i+1))))
+		} else {
+			d.Alts = append(d.Alts, alt(t[s.r.Intn(3)], t[3]))
+		}
+		// a terminal alternative overlapping with what the deeper levels contribute
+		d.Alts = append(d.Alts, alt(t[s.r.Intn(3)], t[s.r.Intn(3)]))
+		if s.r.Intn(3) == 0 && i+1 < depth {
+			d.Alts = append(d.Alts, alt(nt(name(depth-1)), t[4]))
+		}
+		g.NTs = append(g.NTs, d)
+	}
+	return g
+}
+
+// lr2: unambiguous grammars that need two tokens of look-ahead: a shift/reduce conflict in
+// LR(1) whose resolution in favour of the shift loses sentences.
+func (s *synGen) lr2() *Grammar {
+	s.pickTerminals(4)
+	t := s.terms
+	g := &Grammar{NTs: []*NTDef{
+		{Head: "S", Alts: []SAlt{alt(nt("A"), t[1], t[2]), alt(t[0], t[1], t[3])}},
+		{Head: "A", Alts: []SAlt{alt(t[0])}},
+	}}
+	if s.r.Intn(2) == 0 {
+		g.NTs[0].Alts[0], g.NTs[0].Alts[1] = g.NTs[0].Alts[1], g.NTs[0].Alts[0]
+	}
+	if s.r.Intn(2) == 0 {
+		g.NTs[0].Alts = append(g.NTs[0].Alts, alt(t[3], nt("S")))
+	}
+	return g
+}
+
+// wide: statement-like alternatives that each start with a different terminal, so that one
+// state expects many terminals at once (long expected-token lists).
+func (s *synGen) wide() *Grammar {
+	s.pickTerminals(7)
+	t := s.terms
+	st := &NTDef{Head: "St"}
+	n := 4 + s.r.Intn(3)
+	for i := 0; i < n; i++ {
+		body := []Sym{t[i]}
+		if s.r.Intn(2) == 0 {
+			body = append(body, t[(i+1)%len(t)])
+		}
+		st.Alts = append(st.Alts, alt(body...))
+	}
+	list := &NTDef{Head: "Ls", Alts: []SAlt{alt(nt("St")), alt(nt("Ls"), nt("St"))}}
+	if s.r.Intn(2) == 0 {
+		list.Alts[0] = emptyAlt()
+	}
+	return &Grammar{NTs: []*NTDef{{Head: "P", Alts: []SAlt{alt(nt("Ls"))}}, list, st}}
+}
+
 // nullTails: two nonterminals deriving the same terminal meet as complete items in one
 // state; each is followed, up to the end of its body, by a nullable tail, and their real
 // look-aheads are disjoint (LR(1)) or, in the conflicting variant, share one terminal.
@@ -489,7 +565,7 @@ func AssignActions(r *rand.Rand, g *Grammar, mode int) {
 			if mode == 2 {
 				continue
 			}
-			if mode == 0 && r.Intn(4) == 0 {
+			if mode == 0 && (r.Intn(4) == 0 || a.Empty && r.Intn(2) == 0) {
 				continue
 			}
 			n := len(a.Body)
